@@ -447,13 +447,12 @@ func TestVerifC05_sign25519(t *testing.T) {
 		"equal ref/eddsa (which must equal crypto/ed25519 first); the reference signature is accepted by every verification route; distinct = distinct (variant, seed, message, context)")
 	seeds := verifmc.Seeds(32, r.Seed())
 	extra := c05ExtraSeeds(r.Pick(24, 256), 32)
-	fl := int64(1)
 	if !r.Thorough() && r.Config() != "default" {
 		// quick tier, configurations other than default: a declared subset
-		fl = 4
 		seeds, extra = seeds[2:4], extra[:8]
 		r.NotExhaustive("quick tier, non-default configuration: 2 of the structured seeds, 8 extra seeds")
 	}
+	var wantCases int64
 	for _, v := range []*eddsa.Variant{eddsa.Ed25519, eddsa.Ed25519ctx, eddsa.Ed25519ph} {
 		signers, entries, ctxs := c05Signers25519(v), c05Entries25519(v), c05Ctxs(v)
 		errs := c05kit.SignAll(r, verifmc.ParallelFor, "sign25519", v, signers, entries, c05Std(v), seeds, c05Msgs(), ctxs, true)
@@ -461,12 +460,12 @@ func TestVerifC05_sign25519(t *testing.T) {
 		if len(errs) > 0 {
 			t.Fatalf("harness-internal: %v", errs)
 		}
+		wantCases += int64(len(seeds)*len(c05Msgs())*len(ctxs) + len(extra))
 	}
+	// floor on the enumerated (variant, seed, message, context) triples: a property of the alphabet, not of the library's answers
+	r.RequireCounter("sign-cases", wantCases)
 	r.Set("seeds", len(seeds))
 	r.Set("extra_seeds", len(extra))
-	r.RequireCounter("signature-bytes-equal", 500/fl)
-	r.RequireCounter("honest-accepted", 500/fl)
-	r.RequireCounter("second-oracle-agrees", 200/fl)
 }
 
 func TestVerifC05_verify25519(t *testing.T) {
